@@ -45,6 +45,7 @@ class Attr:
     def __init__(self, name, kind, optional=False, target=None, owner=None):
         self.name, self.kind, self.optional, self.target, self.owner = name, kind, optional, target, owner
         self.redef_name = None      # "<supertype>.<attr>" when this position is redeclared by the entity at hand
+        self.derived = False        # the position is redeclared as DERIVEd by the entity at hand: the file carries `*`
 
     @property
     def base(self):
@@ -103,9 +104,10 @@ class Attr:
 
 
 class Entity:
-    def __init__(self, name, supertype=None, attrs=None, andor_root=False, andor_member=False, redecl=None):
+    def __init__(self, name, supertype=None, attrs=None, andor_root=False, andor_member=False, redecl=None, derive=None):
         self.name, self.supertype, self.attrs = name, supertype, attrs or []
-        self.redecl = redecl or []       # [(supertype name, Attr with the narrower type)]  `SELF\super.attr : narrower;`
+        self.redecl = redecl or []       # [(supertype name, Attr with the narrower type)]   SELF\\super.attr : narrower;
+        self.derive = derive or []       # [(supertype name, attr name, EXPRESS type, expression)]   DERIVE SELF\\super.attr : T := e;
         self.andor_root, self.andor_member = andor_root, andor_member
         for a in self.attrs:
             a.owner = name
@@ -137,6 +139,12 @@ class Schema:
                 if a.name == na.name:
                     c = Attr(na.name, na.kind, a.optional, na.target, a.owner)
                     c.redef_name = f"{sup}.{na.name}"
+                    inherited[k] = c
+        for sup, nm, _, _ in e.derive:
+            for k, a in enumerate(inherited):
+                if a.name == nm:
+                    c = Attr(a.name, a.kind, a.optional, a.target, a.owner)
+                    c.derived = True
                     inherited[k] = c
         return inherited + list(e.attrs)
 
@@ -180,6 +188,10 @@ class Schema:
                 out.append(f"  SELF\\{sup}.{na.name} : {na.express_type()};")
             for a in e.attrs:
                 out.append(f"  {a.name} : {'OPTIONAL ' if a.optional else ''}{a.express_type()};")
+            if e.derive:
+                out.append("DERIVE")
+                for sup, nm, ty, ex in e.derive:
+                    out.append(f"  SELF\\{sup}.{nm} : {ty} := {ex};")
             out.append("END_ENTITY;")
             out.append("")
         out.append("END_SCHEMA;")
@@ -292,6 +304,14 @@ def table_schema(name="tab"):
             for opt in (False, True):
                 attrs.append(Attr(f"{k.lower()}_{'opt' if opt else 'req'}", k, opt, "t0" if k in ("ENTITY", "AGG_ENT") else None))
         ents.append(Entity(f"k_other{i // 4}", None, attrs))
+    # redeclared simple-typed attributes (narrower type) and attributes redeclared as DERIVEd
+    ents.append(Entity("rq", None, [Attr("rq_label", "STRING", False), Attr("rq_n", "NUMBER", False), Attr("rq_i", "INTEGER", False),
+                                    Attr("rq_s", "STRING", False), Attr("rq_b", "BOOLEAN", False), Attr("rq_o", "REAL", True)]))
+    ents.append(Entity("rqs", "rq", [Attr("rqs_x", "INTEGER", False)],
+                       redecl=[("rq", Attr("rq_n", "INTEGER", False)), ("rq", Attr("rq_i", "D1_INTEGER", False)),
+                               ("rq", Attr("rq_s", "D2_STRING", False)), ("rq", Attr("rq_b", "D1_BOOLEAN", False))]))
+    ents.append(Entity("rqd", "rq", [Attr("rqd_x", "INTEGER", False)],
+                       derive=[("rq", "rq_i", "INTEGER", "5"), ("rq", "rq_s", "STRING", "'d'")]))
     return Schema(name, ents, ["t0", "t1"], True)
 
 
@@ -449,6 +469,9 @@ def gen_population(rng, schema, n, ids=None, p_null_optional=0.3, p_complex=0.25
             vals = []
             for a in attrs:
                 v = None
+                if a.derived:
+                    vals.append(("derived",))
+                    continue
                 if not (a.optional and rng.random() < p_null_optional):
                     v = gen_value(rng, a, schema, pool)
                 if v is None:
